@@ -12,6 +12,7 @@ import (
 	"os"
 	"path/filepath"
 	"strconv"
+	"sort"
 	"strings"
 	"sync"
 	"sync/atomic"
@@ -183,6 +184,8 @@ type c07Req struct {
 	Headers []rawhttp.Header
 	Body    []byte
 	Chunked bool
+	// Trailers: fields sent after the last chunk of a chunked body, announced in a Trailer header
+	Trailers []rawhttp.Header
 	ChunkSz int
 	Via     string // plain | tls | v6
 	Local   string
@@ -321,10 +324,18 @@ func genC07(r *rand.Rand, rg *c07Rig, id string, thorough bool) *c07Req {
 		q.Body = make([]byte, n)
 		r.Read(q.Body)
 		q.Chunked = r.Intn(3) == 0
+		// (with a body: trailer fields behind an empty chunked body of a GET/HEAD/OPTIONS request are dropped by net/http's
+		// transport, which probes such bodies and sends none at all when they are empty - not fabio's doing)
+		if q.Chunked && len(q.Body) > 0 && r.Intn(3) == 0 {
+			q.Trailers = []rawhttp.Header{{Name: "X-Checksum", Value: fmt.Sprintf("sha-%d", r.Intn(1000000))}}
+			if r.Intn(2) == 0 {
+				q.Trailers = append(q.Trailers, rawhttp.Header{Name: "X-Signature", Value: "a b, c"})
+			}
+		}
 		q.ChunkSz = 1 + r.Intn(9000)
 	}
 	if q.Method == "HEAD" {
-		q.Body = nil
+		q.Body, q.Trailers = nil, nil
 	}
 	// scripted answer of the upstream
 	sc := &rawhttp.Script{Status: choose(r, []int{200, 200, 200, 201, 202, 206, 299, 301, 302, 400, 401, 403, 404, 418, 500, 502, 503, 599, 204, 304})}
@@ -403,6 +414,13 @@ func (q *c07Req) raw() []byte {
 	case q.Body == nil:
 		b.WriteString("\r\n")
 	case q.Chunked:
+		if len(q.Trailers) > 0 {
+			var names []string
+			for _, t := range q.Trailers {
+				names = append(names, t.Name)
+			}
+			fmt.Fprintf(&b, "Trailer: %s\r\n", strings.Join(names, ", "))
+		}
 		b.WriteString("Transfer-Encoding: chunked\r\n\r\n")
 		for off := 0; off < len(q.Body); off += q.ChunkSz {
 			e := off + q.ChunkSz
@@ -413,7 +431,11 @@ func (q *c07Req) raw() []byte {
 			b.Write(q.Body[off:e])
 			b.WriteString("\r\n")
 		}
-		b.WriteString("0\r\n\r\n")
+		b.WriteString("0\r\n")
+		for _, t := range q.Trailers {
+			fmt.Fprintf(&b, "%s: %s\r\n", t.Name, t.Value)
+		}
+		b.WriteString("\r\n")
 	default:
 		fmt.Fprintf(&b, "Content-Length: %d\r\n\r\n", len(q.Body))
 		b.Write(q.Body)
@@ -672,6 +694,22 @@ func c07One(c *ctx, which string, rg *c07Rig, q *c07Req, unrouted *atomic.Int64)
 		}
 		if !bytes.Equal(got.Body, q.Body) && !(len(got.Body) == 0 && len(q.Body) == 0) {
 			viol("c07", "request-body", fmt.Sprintf("upstream saw %d body bytes (sha %x), client sent %d (sha %x)", len(got.Body), got.BodySHA[:6], len(q.Body), sha256.Sum256(q.Body)))
+		}
+		// the trailer fields that end a chunked body are part of what the client sent
+		if len(q.Trailers) > 0 {
+			c.R.Count("requests_with_trailer_fields", 1)
+			var wantT, gotT []string
+			for _, t := range q.Trailers {
+				wantT = append(wantT, strings.ToLower(t.Name)+": "+t.Value)
+			}
+			for _, t := range got.Trailers {
+				gotT = append(gotT, strings.ToLower(t.Name)+": "+t.Value)
+			}
+			sort.Strings(wantT)
+			sort.Strings(gotT)
+			if strings.Join(wantT, "|") != strings.Join(gotT, "|") {
+				viol("c07", "request-trailer-fields-lost", fmt.Sprintf("the client ended its chunked body with the trailer fields %q, the upstream received %q", wantT, gotT))
+			}
 		}
 		// end-to-end request headers
 		names := map[string]bool{}
